@@ -9,7 +9,7 @@ from .. import gens
 
 RULE = ("Cases: a catalogue of public numeric entry points x drawn signals (32..200 samples) x read-only / writable "
         "input arrays x option dictionaries reused across calls. (single) sift, mask_sift, ensemble_sift, "
-        "complete_ensemble_sift, get_next_imf, get_next_imf_mask: layouts (n,), (n,1), (n,1,1) must give np.array_equal "
+        "complete_ensemble_sift, get_next_imf, get_next_imf_mask (each under 4 option sets incl. step sizes != 1, all stop rules, data-driven mask frequencies): layouts (n,), (n,1), (n,1,1) must give np.array_equal "
         "results, layouts (n,2), (1,n), (n,2,3) must raise; (vector) interp_envelope, get_padded_extrema, "
         "frequency_transform x3, amplitude_normalise, get_cycle_vector, Cycles, get_cycle_stat, phase_align, bin_by_phase, "
         "hilberthuang: vector vs single column (2-D vs trailing singleton for amplitude_normalise) must agree; (lengths) "
@@ -46,6 +46,16 @@ OPTS = dict(imf_opts={'stop_method': 'sd', 'sd_thresh': 0.2, 'env_step_size': 1}
             envelope_opts={'interp_method': 'splrep'},
             extrema_opts={'pad_width': 2, 'loc_pad_opts': {'mode': 'reflect', 'reflect_type': 'odd'},
                           'mag_pad_opts': {'mode': 'median', 'stat_length': 1}})
+OPTSETS = [
+    OPTS,
+    dict(imf_opts={'stop_method': 'rilling', 'rilling_thresh': (0.1, 0.8, 0.1), 'env_step_size': 0.5},
+         envelope_opts={'interp_method': 'pchip'}, extrema_opts={'pad_width': 3, 'parabolic_extrema': True}),
+    dict(imf_opts={'stop_method': 'fixed', 'max_iters': 3, 'env_step_size': 1 / 3},
+         envelope_opts={'interp_method': 'mono_pchip'},
+         extrema_opts={'pad_width': 1, 'mag_pad_opts': {'mode': 'median', 'stat_length': 2}}),
+    dict(imf_opts={'stop_method': 'sd', 'sd_thresh': 0.05, 'env_step_size': 0.75, 'energy_thresh': 60},
+         envelope_opts={'interp_method': 'splrep'}, extrema_opts=None),
+]
 
 
 def single_routines(emd):
@@ -59,6 +69,8 @@ def single_routines(emd):
     return {
         'sift': lambda X, o: S.sift(X, max_imfs=3, **o),
         'mask_sift': lambda X, o: S.mask_sift(X, max_imfs=3, mask_freqs=[0.3, 0.1, 0.03], **o),
+        'mask_sift/zc': lambda X, o: S.mask_sift(X, max_imfs=3, mask_freqs='zc', **o),
+        'mask_sift/if': lambda X, o: S.mask_sift(X, max_imfs=2, mask_freqs='if', mask_amp_mode='ratio_sig', **o),
         'ensemble_sift': seeded(lambda X, o: S.ensemble_sift(X, max_imfs=2, nensembles=2, **o)),
         'complete_ensemble_sift': seeded(lambda X, o: S.complete_ensemble_sift(X, max_imfs=2, nensembles=2, **o)),
         'get_next_imf': lambda X, o: S.get_next_imf(X, envelope_opts=o['envelope_opts'], extrema_opts=o['extrema_opts'], **o['imf_opts']),
@@ -107,10 +119,11 @@ def sig_case(draw, names):
     n = draw(st.sampled_from([32, 48, 64, 100, 128, 200]))
     sig = {'family': draw(st.sampled_from(['tones', 'amfm', 'noise', 'walk'])), 'n': n,
            'k': draw(st.integers(0, 2**32 - 1)), 'p1': draw(st.floats(0, 1)), 'p2': draw(st.floats(0, 1))}
-    return {'routine': draw(st.sampled_from(names)), 'sig': sig, 'readonly': draw(st.booleans())}
+    return {'routine': draw(st.sampled_from(names)), 'sig': sig, 'readonly': draw(st.booleans()),
+            'optset': draw(st.integers(0, len(OPTSETS) - 1))}
 
 
-SINGLE = ['sift', 'mask_sift', 'ensemble_sift', 'complete_ensemble_sift', 'get_next_imf', 'get_next_imf_mask']
+SINGLE = ['sift', 'mask_sift', 'mask_sift/zc', 'mask_sift/if', 'ensemble_sift', 'complete_ensemble_sift', 'get_next_imf', 'get_next_imf_mask']
 
 
 def oracle_single(case, rec):
@@ -119,6 +132,7 @@ def oracle_single(case, rec):
     n = x.size
     name = case['routine']
     f = single_routines(emd)[name]
+    OPTS = OPTSETS[case.get('optset', 0)]
     outs = {}
     for lay, X in (('(n,)', x), ('(n,1)', x[:, None]), ('(n,1,1)', x[:, None, None])):
         try:
@@ -141,6 +155,7 @@ def oracle_single(case, rec):
         shapes = [o.shape for o in arr(out)]
         raise Violation('C19/%s/multi-column-input-processed/%s' % (name, lay), 'returned arrays of shape %r for input %r' % (shapes, X.shape))
     rec.cls('routine=' + name)
+    rec.cls('optset=%d' % case.get('optset', 0))
     rec.cls('readonly' if case['readonly'] else 'writable')
     return True
 
@@ -334,7 +349,7 @@ def oracle_options(case, rec):
 
 
 CLAUSES = [
-    Clause('C19.single', oracle_single, strategy=sig_case(SINGLE), quick=360, thorough=8000, shards=(16, 16),
+    Clause('C19.single', oracle_single, strategy=sig_case(SINGLE), quick=640, thorough=8000, shards=(16, 16),
            nt_rule='3 accepted layouts compared and 3 rejected layouts tried'),
     Clause('C19.vector', oracle_vector, strategy=sig_case(VECTOR), quick=720, thorough=12000, shards=(8, 16),
            nt_rule='>= 2 accepted layouts compared'),
